@@ -73,6 +73,8 @@ def one(ctx: Ctx, cs, pname, over, core=True):
                     return 'nonkern-signature-rows'
                 if midsig:
                     return 'midscore-signature-change'
+                if 'nonuniform_signatures' in doc.tags:
+                    return 'nonuniform-signature-rows'
                 return generic
             if err is not None:
                 k = classify_exception(doc, err)
